@@ -11,6 +11,10 @@ the *parent* (`pending`), NumPy then creates the result and calls `__array_final
 which picks up `pending` if present and the parent's full jd lists otherwise.  Whether
 `__getitem__` clears `pending` afterwards is the parameter `clear` (the repaired code does; the
 translator reads it off the source).
+
+Every operation also says which `__array_finalize__` calls it makes (`Res.hooks`: plain parent / heap parent with or
+without hand-over); the harness records the calls of the real code and compares.  Arrays carry their scale class and
+format; `pyEq`/`hashKey` are `__eq__`/`__hash__` over attribute lists that the translator regenerates from the source.
 -/
 namespace Midgard.TimeArrayHist
 
